@@ -70,6 +70,7 @@ def RE(tag, idl, c): return [21, tag, idl, c]   # element with id attribute / ra
 def VO(k): return [22, k]                  # void element (VOIDS)
 def IH(s): return [23, s]                  # div().inner_html(raw)
 def WA(c): return [24, c]                  # c.add_any_attr(data-k="v")  (AnyViewWithAttrs)
+def LR(c): return [28, c]                  # move || local.get().map(|_| c): synchronous read of a LocalResource
 def SA(f, c): return [25, f, c]            # Suspend::new(async { f.await; span().child(c) }).add_any_attr(data-j="v")
 RTAGS = ["div", "textarea", "style", "span"]
 RAW_TAGS = (1, 2)                          # children rendered with escape = false
@@ -77,12 +78,13 @@ VOIDS = ["br", "input", "hr"]
 NEVER = -1                                # "future" of a LocalResource: never completes on the server
 def Cm(f): return [0, f]
 P = [1]
-LEPTOS_KINDS = {10, 11, 12, 13, 14, 17, 18, 19, 20}   # spawn tasks / need an executor: oracle only
+LEPTOS_KINDS = {10, 11, 12, 13, 14, 17, 18, 19, 20, 28}   # spawn tasks / need an executor: oracle only
 UNMODELLED = LEPTOS_KINDS | {21, 22, 23, 24, 25}      # tachys views outside the Coq grammar: oracle only
 TICK, CREATE, RENDER = [2], [3], [4]      # extra schedule events of opcode 1 (executor turns under control)
 TAGS = ["div", "p", "span", "b"]
 WRAPS = ["Either::Left", "Either::Right", "EitherOf3::B", "Ok", "OwnedView::new", "into_view", "EitherOf4::D", "[_; 1]"]
-REPS = ["&'static str", "Cow::Borrowed", "Cow::Owned", "Arc<str>", "Oco::Borrowed", "Oco::Owned", "Oco::Counted", "u32", "i64"]
+REPS = ["&'static str", "Cow::Borrowed", "Cow::Owned", "Arc<str>", "Oco::Borrowed", "Oco::Owned", "Oco::Counted", "u32", "i64",
+        "ArcRwSignal", "RwSignal"]
 TUPLE_ARITIES = (0, 1, 2, 3, 4, 5, 6, 7, 8, 12, 16, 25, 26)
 
 
@@ -90,7 +92,7 @@ def futures_of(v):
     k = v[0]
     if k in (0, 6, 26, 22, 23):
         return []
-    if k in (8, 9, 15, 16, 27, 17, 18, 21, 24):
+    if k in (8, 9, 15, 16, 27, 17, 18, 21, 24, 28):
         return [f for c in children(v) for f in futures_of(c)]
     if k == 19:
         return [v[1]]
@@ -127,7 +129,7 @@ def children(v):
     k = v[0]
     if k in (0, 6, 26, 19, 22, 23):
         return []
-    if k in (17, 18, 24):
+    if k in (17, 18, 24, 28):
         return [v[1]]
     if k in (20, 21):
         return [v[3]]
@@ -236,6 +238,8 @@ def show_view(v):
         return "{move || %s}" % show_view(v[1])
     if k == 18:
         return "Unsuspend(%s)" % show_view(v[1])
+    if k == 28:
+        return "{move || local.get().map(|_| %s)}" % show_view(v[1])
     if k == 19:
         return "Resource(f%d -> %r)" % (v[1], s(v[2]))
     if k == 20:
@@ -265,7 +269,7 @@ def show_view(v):
     if k == 16:
         return "%s[%s]" % (["array", "StaticVec", "Fragment"][v[1] % 3], ", ".join(show_view(c) for c in v[2:]))
     if k == 26:
-        return "%s(%r)" % (REPS[v[1] % 9], s(v[2]))
+        return "%s(%r)" % (REPS[v[1] % 11], s(v[2]))
     if k == 27:
         t = TAGS[v[1] % 4]
         return "%s()%s" % (t, "".join(".child(%s)" % show_view(c) for c in v[2:]))
@@ -361,6 +365,8 @@ def gen_view(rng, lab, fut, depth, allow, in_fallback=False, in_susp=False, top=
             opts += [13, 13, 13]
         if 14 in allow and in_susp and not in_fallback and more:
             opts += [14, 14]
+        if 28 in allow and in_susp and not in_fallback:
+            opts += [28]
         for ck in (8, 9, 15, 16, 27, 21, 21, 22, 23, 24):
             if ck in allow:
                 opts += [ck]
@@ -381,8 +387,8 @@ def gen_view(rng, lab, fut, depth, allow, in_fallback=False, in_susp=False, top=
         return f
     if k == 0:
         if 26 in allow and rng.random() < 0.2:
-            rep = rng.randrange(9)
-            return TR_(rep, lab.number(rep == 8) if rep >= 7 else lab.text())
+            rep = rng.randrange(11)
+            return TR_(rep, lab.number(rep == 8) if rep in (7, 8) else lab.text())
         return T(lab.text())
     if k in (8, 16, 27):
         n = rng.choice([0, 1, 2, 2, 3]) if k == 8 else rng.choice([0, 1, 2, 3, 4]) if k == 16 else rng.choice([2, 2, 3, 4])
@@ -396,6 +402,8 @@ def gen_view(rng, lab, fut, depth, allow, in_fallback=False, in_susp=False, top=
         return CL(rec())
     if k == 18:
         return UN(simple())
+    if k == 28:
+        return LR(simple())
     if k == 19:
         return RV(newf(), lab.text())
     if k == 20:
@@ -576,6 +584,12 @@ def templates():
     t.append(("attr-suspend", d(Tu(T("l"), SA(1, Tu(T("m"), p(T("n")))), T("r")))))
     t.append(("attr-bound", d(WA(B(1, Tu(p(T("L1")), VO(0)), Tu(E(2, T("C1")), S(2, E(3, T("i")))))))))
     t.append(("attr-susp", d(SU(p(T("L1")), WA(Tu(S(1, p(T("C1"))), E(2, T("m"))))))))
+    t.append(("attr-typed", d(Tu(WA(Tu(p(T("a")), S(1, p(T("x"))))), WA(Tu(S(2, E(2, T("y"))), T("t"), VO(0))), WA(V(p(T("v")))), WA(O(E(3, T("o"))))))))
+    t.append(("attr-typed-susp", d(Tu(WA(SU(p(T("L1")), S(1, p(T("C1"))))), WA(TR(p(T("L2")), Tu(S(2, p(T("C2"))), E(2, T("m")))))))))
+    t.append(("attr-typed-local", d(WA(WA(SU(p(T("L1")), LS(1, 0, 1, p(T("C1")))))))))
+    t.append(("local-sync", d(Tu(E(2, T("x")), SU(E(3, T("L1")), Tu(LR(E(3, T("C1"))), S(1, p(T("C2"))))), E(2, T("t"))))))
+    t.append(("local-sync-trans", d(TR(E(3, T("L1")), LR(T("C1"))))))
+    t.append(("signals", d(Tu(TR_(9, "l"), S(1, TR_(10, "m")), TR_(9, ""), SU(T("L1"), S(2, TR_(10, "C2")))))))
     t.append(("F-C07", Tu(a, S(1, b), c)))
     t.append(("F-C07-before", Tu(S(1, a), b)))
     return t
@@ -674,10 +688,10 @@ FAMILIES = [
     ("cont", {0, 1, 2, 3} | CONT),
     ("cont-boundary", {0, 1, 2, 3, 4, 5} | CONT),
     ("cont-leptos", {0, 1, 2, 3, 10, 11, 12, 13, 14} | CONT),
-    ("closures-leptos", {0, 1, 2, 3, 10, 11, 12, 13, 14, 17, 18, 19, 20} | CONT),
+    ("closures-leptos", {0, 1, 2, 3, 10, 11, 12, 13, 14, 17, 18, 19, 20, 28} | CONT),
     ("elems", {0, 1, 2, 3, 21, 22, 23, 24, 25} | CONT),
     ("elems-boundary", {0, 1, 2, 3, 4, 5, 21, 22, 23, 24, 25} | CONT),
-    ("all-leptos", {0, 1, 2, 3, 10, 11, 12, 13, 14, 17, 18, 19, 20, 21, 22, 23, 24, 25} | CONT),
+    ("all-leptos", {0, 1, 2, 3, 10, 11, 12, 13, 14, 17, 18, 19, 20, 21, 22, 23, 24, 25, 28} | CONT),
 ]
 
 
@@ -708,7 +722,7 @@ def res_placement_ok(v, in_susp=False, top=True):
     (and not inside the content of a Suspend, which nobody re-resolves); a Suspend that reads a
     LocalResource: under a boundary, or where no boundary encloses it at all"""
     k = v[0]
-    if k == 13:
+    if k in (13, 28):
         return in_susp
     if k == 14:
         # (outside every <Suspense> reading a LocalResource is a usage error: leptos_server panics
@@ -795,9 +809,9 @@ def wf_view(v, in_fallback):
         return len(v) >= 2 and v[1] in (0, 1, 2) and (v[1] != 0 or len(v) <= 6) \
             and all(wf_view(c, in_fallback) for c in v[2:])
     if k == 26:
-        if not (len(v) == 3 and v[1] in range(9) and _bytes(v[2])):
+        if not (len(v) == 3 and v[1] in range(11) and _bytes(v[2])):
             return False
-        if v[1] >= 7:
+        if v[1] in (7, 8):
             t = bytes(v[2]).decode()
             return bool(re.fullmatch(r"[1-9][0-9]{0,8}" if v[1] == 7 else r"-?[1-9][0-9]{0,8}", t))
         return True
@@ -818,7 +832,7 @@ def wf_view(v, in_fallback):
         return False
     if k == 17:
         return len(v) == 2 and wf_view(v[1], False)
-    if k == 18:
+    if k in (18, 28):
         return len(v) == 2 and wf_view(v[1], True) and not (kinds_in(v[1]) - SIMPLE)
     if k == 19:
         return len(v) == 3 and isinstance(v[1], int) and v[1] > 0 and _bytes(v[2])
@@ -1016,7 +1030,13 @@ def py_render(v, flag, dropped=frozenset(), attrs="", esc=True):
     if k == 23:
         return "<div%s>%s</div>" % (attrs, text_of_label(v[1])), False
     if k == 24:
-        return R(v[1], flag, attrs + ' %s="v"' % (v[2] if len(v) > 2 else "data-k"))
+        mine = attrs + ' %s="v"' % (v[2] if len(v) > 2 else "data-k")
+        c = v[1]
+        if c[0] in (11, 12) and not (len(c) > 3 and c[3]) and reads_local(c[2]):
+            # AddAnyAttr for SuspenseBoundary hands the attribute to the children only; what was
+            # already on its way (extra_attrs) reaches the fallback as well
+            return R(c[1], flag, attrs)
+        return R(c, flag, mine)
     if k in (8, 16):
         # Vec: the children, then a <!> end marker; arrays / StaticVec / Fragment: just the children
         h, fl = seq(children(v), flag)
@@ -1030,6 +1050,8 @@ def py_render(v, flag, dropped=frozenset(), attrs="", esc=True):
         return R(v[2], flag)
     if k in (17, 18):
         return R(v[1], flag)
+    if k == 28:
+        return unit           # None on the server (and its <Suspense> keeps the fallback anyway)
     if k == 2:
         if len(v) == 1:
             return unit
@@ -1066,6 +1088,8 @@ def reads_local(v):
     k = v[0]
     if k == 14:
         return bool(v[2] or v[3])
+    if k == 28:
+        return True
     if k in (3, 11, 12, 4, 7, 13):
         return False
     return any(reads_local(c) for c in children(v))
@@ -1079,6 +1103,8 @@ def awaited(v):
         return [v[1]]
     if k == 14:
         return [v[1]] + ([NEVER] if v[2] or v[3] else [])
+    if k == 28:
+        return [NEVER]
     if k in (11, 12, 4, 7):
         return []
     return [f for c in children(v) for f in awaited(c)]
@@ -1105,6 +1131,8 @@ def label_scopes(v, chain, out, raw=False):
         aw = awaited(v[2])      # contains NEVER if a LocalResource is read: the children never show
         label_scopes(v[1], chain + [("fallback", aw)], out, raw)
         label_scopes(v[2], chain + [("content", aw)], out, raw)
+    elif k == 28:
+        label_scopes(v[1], chain + [("content", [NEVER])], out, raw)
     elif k == 21:
         label_scopes(v[3], chain, out, v[1] % 4 == 2)
     else:
